@@ -40,7 +40,7 @@ def emptySnap : Snap :=
     blockingActive := false, signalPending := none, zeroedA := false, zeroedB := false }
 
 def parseFwCase (c : CaseBlock) : Except String FwCaseParsed := do
-  let ms ← c.header.mapM (fun ws => match ws with
+  let ms ← (c.header.filter (fun ws => ws.head? == some "m")).mapM (fun ws => match ws with
     | ["m", h] => match hexBytes h with
       | some bs => match Codec.decodeMachine bs with
         | some m => pure m
